@@ -90,7 +90,9 @@ def hist_suite(ctx, vh):
     missing = [k for k in need if not ops.get(k)]
     if missing:
         raise verif.ToolError("vacuous simulation: step kinds never generated: %s" % missing)
-    mcb = verif.sample(ctx.rng, mc.replays, 40000) if ctx.thorough else verif.sample(ctx.rng, mc.replays, 8000)
+    rare = [b for b in mc.replays if any(st_["op"] == "badmerge" for st_ in b["steps"])]
+    rest = [b for b in mc.replays if not any(st_["op"] == "badmerge" for st_ in b["steps"])]
+    mcb = rare + (verif.sample(ctx.rng, rest, 40000) if ctx.thorough else verif.sample(ctx.rng, rest, 8000))
     simb = simb if ctx.thorough else verif.sample(ctx.rng, simb, 4000)
     ctx.cov["hist_behaviours"] = {"mc_exhaustive_total": len(mc.replays), "mc_replayed": len(mcb),
                                   "init_shapes": len(ini.replays), "poison_exhaustive": len(poi.replays), "simulated_replayed": len(simb),
